@@ -60,10 +60,9 @@ REQUIRED_COUNTERS = [
     "eval:aligned_not_translation_by_returned_shift_int_f64",
     "eval:aligned_not_reference_sub_up8",
     "eval:fft_variant_disagrees_int_f64",
-    "eval:callsite_shift_error_sub_up1",
-    "eval:callsite_shift_error_sub_up4",
-    "eval:callsite_shift_error_int_f32",
 ]
+# the call-site sub-monitors (tomography / direct-ptychography helpers, partly private names) are additional observability:
+# if a helper disappears it is listed under hooks_missing in the evidence and the verdict rests on the estimators themselves
 
 UPS = [1, 2, 3, 4, 8, 16, 32, 64]
 SHAPES = ["even_sq", "odd_sq", "even_odd", "odd_even", "tall_even", "wide_odd"]
@@ -111,12 +110,17 @@ def setup(ctx):
         from quantem.tomography import utils as tomo
 
         ctx.state["tomo"] = tomo
+        if not hasattr(tomo, "cross_correlation_align_stack"):
+            ctx.hooks_missing.append("quantem.tomography.utils.cross_correlation_align_stack")
     except Exception as e:  # noqa: BLE001
         ctx.hooks_missing.append("quantem.tomography.utils (%s)" % type(e).__name__)
     try:
         from quantem.diffractive_imaging import direct_ptycho_utils as dpu
 
         ctx.state["dpu"] = dpu
+        for name in ("_compute_reference_shifts", "_compute_pairwise_shifts", "_fourier_shift_stack"):
+            if not hasattr(dpu, name):
+                ctx.hooks_missing.append("quantem.diffractive_imaging.direct_ptycho_utils." + name)
     except Exception as e:  # noqa: BLE001
         ctx.hooks_missing.append("quantem.diffractive_imaging.direct_ptycho_utils (%s)" % type(e).__name__)
 
@@ -323,34 +327,38 @@ def _run_numpy(spec, idx, ctx, rng, shape, s, im, ref, bw):
     else:
         ctx.count("swap_not_judged_half_integer")
 
-    # aligned image
-    r2, al = ccs(a, b, upsample_factor=up, return_shifted_image=True)
-    r2 = np.asarray(r2, dtype=np.float64)
-    j.close("shift_depends_on_return_flag", _absmax(T.wrap(r2 - r, shape)), j.tol0, lambda: "r=%s with image: %s" % (r.tolist(), r2.tolist()), "real")
-    al = np.asarray(al)
-    ok = j.check("aligned_bad_type", al.shape == tuple(shape) and not np.iscomplexobj(al), lambda: "aligned image shape=%s dtype=%s" % (al.shape, al.dtype), "real")
+    # aligned image, every input/output variant: each must (a) be `im` translated by the shift returned with it and
+    # (b) match the reference to the extent that shift is accurate; each returned shift is judged against the truth
     b64 = b.astype(np.float64)
-    if ok:
-        j.close("aligned_not_translation_by_returned_shift", rel_l2(al, T.translate(b64, r2)), itol, lambda: "shape=%s returned r=%s: aligned image is not im translated by +r" % (shape, r2.tolist()), "real")
-        if d is not None and np.max(np.abs(d)) <= j.tol:
-            d2 = T.wrap(r2 - s, shape)
-            bound = math.pi * bw * float(np.sum(np.abs(d2))) + itol  # relative to the contrast norm: the mean (k=0) does not move
-            j.close("aligned_not_reference", rel_l2(al, a.astype(np.float64)), bound, lambda: "shape=%s s=%s r=%s" % (shape, s.tolist(), r2.tolist()), "real", k=kind)
-
-    # Fourier-space input / output
+    a64 = a.astype(np.float64)
     Fa, Fb = np.fft.fft2(a), np.fft.fft2(b)
     r3 = np.asarray(ccs(Fa, Fb, upsample_factor=up, fft_input=True), dtype=np.float64)
-    j.close("fft_variant_disagrees", _absmax(T.wrap(r3 - r, shape)), j.tol0, lambda: "real-space r=%s fft_input r=%s" % (r.tolist(), r3.tolist()), "fft_input")
     j.shift(r3, s, shape, "fft_input")
-    r4, alF = ccs(Fa, Fb, upsample_factor=up, fft_input=True, fft_output=True, return_shifted_image=True)
-    r4 = np.asarray(r4, dtype=np.float64)
-    j.close("fft_variant_disagrees", _absmax(T.wrap(r4 - r, shape)), j.tol0, lambda: "real-space r=%s fft_input+fft_output r=%s" % (r.tolist(), r4.tolist()), "fft_output")
-    alF = np.asarray(alF)
-    if j.check("aligned_bad_type", alF.shape == tuple(shape), lambda: "fft_output shape=%s" % (alF.shape,), "fft_output") and ok:
-        j.close("fft_image_variant_disagrees", rel_l2(np.real(np.fft.ifft2(alF)), al), itol, lambda: "ifft2(fft_output image) differs from the real-space aligned image", "fft_output_image")
-    al5 = ccs(a, b, upsample_factor=up, return_shifted_image=True, fft_output=True)[1]
-    if ok:
-        j.close("fft_image_variant_disagrees", rel_l2(np.real(np.fft.ifft2(np.asarray(al5))), al), itol, lambda: "real input + fft_output image differs from the real-space aligned image", "fft_output_image")
+    if kind == "int":  # "exactly" applies to both variants, so they agree at working precision
+        j.close("fft_variant_disagrees", _absmax(T.wrap(r3 - r, shape)), 2 * j.tol0, lambda: "real-space r=%s fft_input r=%s" % (r.tolist(), r3.tolist()), "fft_input")
+    variants = [
+        ("real", (a, b), {}),
+        ("fft_input+fft_output", (Fa, Fb), {"fft_input": True, "fft_output": True}),
+        ("fft_output", (a, b), {"fft_output": True}),
+        ("fft_input", (Fa, Fb), {"fft_input": True}),
+    ]
+    for io, args, kw in variants:
+        rv, al = ccs(*args, upsample_factor=up, return_shifted_image=True, **kw)
+        rv = np.asarray(rv, dtype=np.float64)
+        dv = j.shift(rv, s, shape, io + "+image")
+        al = np.asarray(al)
+        if kw.get("fft_output"):
+            if not j.check("aligned_bad_type", al.shape == tuple(shape), lambda: "fft_output image shape=%s" % (al.shape,), io):
+                continue
+            al = np.real(np.fft.ifft2(al))
+        elif not j.check("aligned_bad_type", al.shape == tuple(shape) and not np.iscomplexobj(al), lambda: "aligned image shape=%s dtype=%s" % (al.shape, al.dtype), io):
+            continue
+        if dv is None:
+            continue
+        j.close("aligned_not_translation_by_returned_shift", rel_l2(al, T.translate(b64, rv)), itol, lambda: "shape=%s returned r=%s (%s): aligned image is not im translated by +r" % (shape, rv.tolist(), io), io)
+        if np.max(np.abs(dv)) <= j.tol:
+            bound = math.pi * bw * float(np.sum(np.abs(dv))) + itol  # Parseval; relative to the contrast norm (the mean does not move)
+            j.close("aligned_not_reference", rel_l2(al, a64), bound, lambda: "shape=%s s=%s r=%s (%s)" % (shape, s.tolist(), rv.tolist(), io), io, k=kind)
 
     # max_shift: search disc containing the true shift
     sw = T.wrap(s, shape)
@@ -360,7 +368,8 @@ def _run_numpy(spec, idx, ctx, rng, shape, s, im, ref, bw):
     r7 = np.asarray(ccs(b, b, upsample_factor=up, max_shift=float(rng.uniform(2.5, 8.0))), dtype=np.float64)
     j.close("identical_nonzero", _absmax(r7), j.tol0, lambda: "identical images shape=%s max_shift -> %s" % (shape, r7.tolist()), "max_shift")
 
-    j.check("input_mutated", np.array_equal(a, a_keep) and np.array_equal(b, b_keep), "estimator modified its input arrays", "real")
+    if not (np.array_equal(a, a_keep) and np.array_equal(b, b_keep)):
+        ctx.count("observed:estimator_modified_its_inputs")  # not part of the property: recorded, not judged
     return r, d
 
 
@@ -386,8 +395,9 @@ def _run_torch(spec, idx, ctx, rng, shape, s, im, ref, bw):
     # Fourier-space entry point
     G1, G2 = torch.fft.fft2(A), torch.fft.fft2(B)
     x = npy(iu.align_images_fourier_torch(G1, G2, up))
-    j.close("fft_variant_disagrees", _absmax(T.wrap(x - t, shape)), j.tol0, lambda: "cross_correlation_shift_torch=%s align_images_fourier_torch=%s" % (t.tolist(), x.tolist()), "fft_input")
     j.shift(x, s, shape, "fft_input")
+    if kind == "int":
+        j.close("fft_variant_disagrees", _absmax(T.wrap(x - t, shape)), 2 * j.tol0, lambda: "cross_correlation_shift_torch=%s align_images_fourier_torch=%s" % (t.tolist(), x.tolist()), "fft_input")
     return t, d
 
 
@@ -417,10 +427,11 @@ def _run_tomo(spec, idx, ctx):
         return
     rng = ctx.rng(idx)
     shape = gen_shape(rng, spec["shape"])
-    # blobs (sigma <= 1.5 px) stay >= 11 px away from every edge: compact support to ~1e-12, so the library's
+    # blobs (sigma <= 1.5 px) stay >= 14 px away from every edge: compact support to ~1e-12, so the library's
     # non-periodic scipy.ndimage.shift and the circular ground truth agree
-    shape = (shape[0] + 32 - 12, shape[1] + 32 - 12)
-    ref = T.blob_image(rng, shape, nblobs=int(rng.integers(3, 7)), margin=0.36, sigma=(0.9, 1.5))
+    # and >= 7.5 px from each other (isotropic, untilted correlation peak: the up=1 parabolic refinement is then accurate to ~0.05 px)
+    shape = (shape[0] + 28, shape[1] + 28)
+    ref = T.blob_image(rng, shape, nblobs=int(rng.integers(2, 6)), margin=0.36, sigma=(0.9, 1.5), min_sep=7.5)
     n = int(rng.integers(2, 4))
     kind = spec["sclass"]
     shifts = []
@@ -441,8 +452,11 @@ def _run_tomo(spec, idx, ctx):
     j.tol = 1e-6 if kind == "int" else 0.5  # the images pass through a cubic-spline shift between estimates
     j.check("callsite_bad_result", len(pred) == n and len(new_images) == n, "len(pred)=%d len(images)=%d n=%d" % (len(pred), len(new_images), n), "callsite")
     worst = 0.0
+    carry = np.zeros(2)  # the library registers image k against the *previously aligned* image = T_{pred[k-1]}(stack[k-1]) = T_{pred[k-1]-s[k-1]}(ref)
     for k in range(min(n, len(pred))):
-        d = j.shift(pred[k], shifts[k], shape, "callsite", base="callsite_shift_error")
+        d = j.shift(pred[k], shifts[k] + carry, shape, "callsite", base="callsite_shift_error")
+        pk = np.asarray(pred[k], dtype=np.float64).ravel()
+        carry = pk - shifts[k] if pk.shape == (2,) and np.all(np.isfinite(pk)) else np.zeros(2)
         if d is not None:
             worst = max(worst, float(np.max(np.abs(d))))
         if kind == "int" and d is not None and np.max(np.abs(d)) <= j.tol:
@@ -456,7 +470,7 @@ def _run_dptycho(spec, idx, ctx):
     """direct_ptycho_utils._compute_reference_shifts / _compute_pairwise_shifts on a stack of exact translates."""
     dpu = ctx.state.get("dpu")
     torch = ctx.state["torch"]
-    if dpu is None or not hasattr(dpu, "_compute_reference_shifts"):
+    if dpu is None or not hasattr(dpu, "_compute_reference_shifts") or not hasattr(dpu, "_compute_pairwise_shifts"):
         ctx.count("callsite_missing:dptycho")
         return
     rng = ctx.rng(idx)
